@@ -1,4 +1,3 @@
-import re
 import string
 from abc import ABC, abstractmethod
 from keyword import iskeyword
@@ -11,7 +10,6 @@ class NameSanitizer(ABC):
 
 
 class BuiltinNameSanitizer(NameSanitizer):
-    _BAD_CHARS = re.compile(r"\W")
     _TRANSLATE_MAP = str.maketrans({".": "_", "[": "_"})
 
     def sanitize(self, name: str) -> str:
@@ -19,7 +17,10 @@ class BuiltinNameSanitizer(NameSanitizer):
             return ""
 
         first_letter = name[0] if name[0] in string.ascii_letters else "_"
-        result = first_letter + self._BAD_CHARS.sub("", name[1:].translate(self._TRANSLATE_MAP))
-        if iskeyword(result):
+        # ``\w`` is wider than the set of characters allowed in an identifier (e.g. it matches ``²``)
+        result = first_letter + "".join(
+            char for char in name[1:].translate(self._TRANSLATE_MAP) if ("_" + char).isidentifier()
+        )
+        if iskeyword(result) or result == "__debug__":  # ``__debug__`` cannot be assigned as well
             return result + "_"
         return result
